@@ -103,6 +103,10 @@ func vh_IS() {
 		vAssume(vAnd(na >= r.lastApplied, na <= r.commitIndex))
 		r.lastApplied = na
 	}
+	// C14 ordering: close(rename) first, then the boundary, then the log
+	n.snaps.onVisible = func(rec *vSnapRec) {
+		vAssert(vAnd(r.lastIncludedIndex == pre.lastIncludedIndex, vAnd(n.log.entries[0].Index == pre.firstIndex, len(n.log.entries) == pre.logLen)), "C14.snapshot-visible-before-boundary-and-log-change")
+	}
 	restoredThrough := uint64(0)
 	n.fsm.onRest = func() {
 		vAssert(!vHeld(&r.mu), "C20.lock-released-around-restore")
@@ -150,7 +154,7 @@ func vh_IS() {
 	// ---- installation only of something new, with the request's identity and bytes
 	vAssert(req.Done, "C11.install-only-on-last-chunk")
 	vAssert(vAnd(L > pre.applied, L > pre.lastIncludedIndex), "C10|C11.install-only-newer-than-applied-and-boundary")
-	vAssert(vAnd(rec.meta.LastIncludedIndex == L, rec.meta.LastIncludedTerm == req.LastIncludedTerm), "C11.visible-snapshot-carries-request-label")
+	vAssert(vAnd(rec.meta.LastIncludedIndex == L, rec.meta.LastIncludedTerm == req.LastIncludedTerm), "C10|C11.visible-snapshot-carries-request-label")
 	vAssert(vAnd(post.lastIncludedIndex == rec.meta.LastIncludedIndex, post.lastIncludedTerm == rec.meta.LastIncludedTerm), "C10|C11.boundary-equals-visible-snapshot-label")
 	if partial != nil && rec == partialRec {
 		vCover("completed-partial-file")
